@@ -20,7 +20,11 @@ def sharedWrites : List SharedWrite := [
   { path := "typedpy/fields/set_field.py", file := "set_field.py", func := "ImmutableSet.__set__", attr := "_name", target := "self.items", valueKind := .ownerName, readBack := true },
   { path := "typedpy/fields/tuple_field.py", file := "tuple_field.py", func := "Tuple.__set__", attr := "_name", target := "item", valueKind := .perCall, readBack := true },
   { path := "typedpy/fields/tuple_field.py", file := "tuple_field.py", func := "Tuple.serialize", attr := "_serialize", target := "self", valueKind := .definitionOnly, readBack := true },
-  { path := "typedpy/serialization/mappers.py", file := "mappers.py", func := "aggregate_serialization_mappers", attr := "aggregated_mapper_by_class", target := "<module>", valueKind := .keyedCache, readBack := true }
+  { path := "typedpy/serialization/mappers.py", file := "mappers.py", func := "aggregate_serialization_mappers", attr := "aggregated_mapper_by_class", target := "<module>", valueKind := .keyedCache, readBack := true },
+  { path := "typedpy/serialization/serialization.py", file := "serialization.py", func := "_structure_simplicity_level", attr := "<lru_cache>", target := "<module>", valueKind := .keyedCache, readBack := true },
+  { path := "typedpy/serialization/serialization.py", file := "serialization.py", func := "_get_enum_mapping", attr := "<lru_cache>", target := "<module>", valueKind := .keyedCache, readBack := true },
+  { path := "typedpy/serialization/serialization.py", file := "serialization.py", func := "_get_class_deserialization_mapping_for_simple_class", attr := "<lru_cache>", target := "<module>", valueKind := .keyedCache, readBack := true },
+  { path := "typedpy/serialization/serialization.py", file := "serialization.py", func := "serialize_internal", attr := "<dynamic>", target := "cls", valueKind := .definitionOnly, readBack := false }
 ]
 
 end Typedpy.Pinned
